@@ -23,7 +23,7 @@ static J gen_background(Chooser &ch)
   g::Opt o;
   o.min_features = 0; o.max_features = 4;
   o.global_constants = true; o.force_surface = true; o.operations = true; o.model_ranges = true;
-  o.cooling_models = false;
+  o.cooling_models = false; o.any_gravity_sign = true;
   g::GW w = g::gen_world(ch, o);
   J c = J::obj();
   c["world"] = w.root.dump();
@@ -55,6 +55,12 @@ static J gen_background(Chooser &ch)
           // anywhere, incl. inside footprints but above/below the feature: background is asserted when the code reports tag -1
           q = g::gen_query(ch, w, w.feats.empty() ? nullptr : &w.feats[ch.index(w.feats.size())]);
           if (ch.chance(60)) { q = g::make_query(w.fr, q.at("nat")[0].num(), q.at("nat")[1].num(), ch.flip() ? depth : ch.pick<double>({0.0, -1e3, 1.0})); }
+          if (w.fr.sph && ch.chance(15))
+            {
+              // the planet's centre: depth equal to the radius
+              q = J::obj();
+              q["p"] = jp(0, 0, 0); q["depth"] = w.fr.R; q["nat"] = jp(0, 0);
+            }
           q["far"] = false;
         }
       qs.push(q);
